@@ -31,7 +31,7 @@
 //@ enditem
 //@ if poll_reg_real
 //@ item src/sys.rs / impl Poll / fn unregister props=C16 ret=r
-//@ rw R2 1 <<|_, (source, _)| *source != raw>> => <<|_k, _v| _v.0 != raw>>
+//@ rw R2 * <<|_, (source, _)| *source != raw>> => <<|_k, _v| _v.0 != raw>>
 //@ else
 //@ item src/sys.rs / impl Poll / fn unregister props=C16 sigonly ret=r
 //@ endif
